@@ -247,6 +247,30 @@ func ruleDeclaredOrder(c *eng.Ctx) {
 						if _, isAlloc := x.Addr.(*ssa.Alloc); isAlloc {
 							checkEdge(x.Block())
 						}
+						// kept in a small ordering object whose method hands the list back (chosen once, asked later)
+						if fr, ok := eng.AsField(x.Addr); ok {
+							handsBack := false
+							for _, g := range c.P.ModuleFuncs() {
+								if g.Pkg != sel.Pkg || g.Blocks == nil {
+									continue
+								}
+								for _, r := range eng.Returns(g) {
+									for _, res := range r.Results {
+										if f2, ok := eng.LoadOfField(res); ok && f2.Field == fr.Field && f2.Struct == fr.Struct {
+											handsBack = true
+										}
+										if fv, ok := res.(*ssa.Field); ok {
+											if f2, ok := eng.AsField(fv); ok && f2.Field == fr.Field && f2.Struct == fr.Struct {
+												handsBack = true
+											}
+										}
+									}
+								}
+							}
+							if handsBack {
+								checkEdge(x.Block())
+							}
+						}
 					}
 				}
 			})
